@@ -11,6 +11,14 @@ pre-existing content of the path is byte-for-byte untouched, and whether Catalog
 afterwards are compared inside Coq (c09_case, Model/FailStop.v) with the transition-system model
 of the current algorithm (v_cur) and of the repaired one (v_fix), and the property statement
 (spec_ok and its four clauses) is evaluated on the observation.
+
+Every fault kind / position / place is run not only on a fresh path but also OVER A PRE-EXISTING VALID CATALOG
+with overwrite=True (and, in the thorough tier, overwrite=False), the old catalog having fewer, the same number of,
+or more patches than the new one, sequentially and in parallel.  After every run the path is opened again with
+Catalog(path) and what it holds is classified (closed / the untouched old catalog / exactly the complete input /
+anything else) and compared with the model (c09_case_held, held_of) and with the clause cl_open_exact: a path
+that opens holds the untouched old catalog or the complete input of a successful creation, never a part or a mix
+(theorems C09_openable_only_old_or_complete, C09_fix_meets_open_spec).
 """
 import hashlib
 import json
@@ -44,6 +52,9 @@ ASSUMPTIONS = [
     "records are compared by the bit pattern of their float64 fields (input degrees -> np.deg2rad on the harness side)",
     "a directory 'opens as a catalog' iff yaw.Catalog(path, max_workers=1) does not raise",
     "'untouched' = identical recursive listing and SHA-1 of every file before the call and after it (or after the kill)",
+    "what an opened path holds: HPre = opens and untouched; HNew = opens, was modified, and the records of every patch "
+    "(bit patterns) are exactly the input partitioned as a successful creation partitions it; HOther = opens otherwise "
+    "(including data that cannot be loaded); the old catalog's patches are labels 101.. in the model",
     "model abstraction: one label per chunk; a worker fault puts nothing for its chunk (other splits of the same chunk may "
     "have been written in reality; only the absence of patch_ids.bin is compared)",
 ]
@@ -70,6 +81,9 @@ def base_spec(**kw):
 
 SHAPES = [(14, 5), (9, 3), (12, 4), (7, 3)]          # three chunks each
 VALUE_FAULTS = [("nan", "ra"), ("nan", "dec"), ("inf", "w"), ("nan", "z"), ("neginf", "w"), ("inf", "z"), ("nan", "w"), ("inf", "dec")]
+OVER_SHAPES = [(14, 5), (12, 4), (23, 5), (17, 4), (9, 3)]   # three to five chunks
+OVER_FAULTS = ["value", "worker", "unequal", "id"]
+OLD_SIZES = ["catalog_fewer", "catalog_same", "catalog_more"]
 READER_FAULTS = [("value", None), ("unequal", "w"), ("idneg", "pid"), ("idbig", "pid"), ("idwrap", "pid"), ("idedge", "pid")]
 
 
@@ -105,6 +119,27 @@ def specs(ctx):
         else:
             add(shape=shp, workers=workers, patch="name", fault=dict(kind=kind, chunk=chunk, col="pid"))
 
+    def over_fault(kind, pos, workers, old, overwrite, shp=None):
+        """a fault of the given kind / position while the target holds a valid catalog of `old` size"""
+        shp = shp or rng.choice(OVER_SHAPES)
+        nch = -(-shp[0] // shp[1])
+        chunk = {"first": 0, "middle": nch // 2, "last": nch - 1}[pos]
+        kw = dict(shape=shp, workers=workers, pre=old, overwrite=overwrite)
+        if kind == "value":
+            kk, col = rng.choice(VALUE_FAULTS)
+            add(fault=dict(kind=kk, chunk=chunk, col=col), patch=rng.choice(["centers", "name"]), **kw)
+        elif kind == "unequal":
+            add(source="frame", fault=dict(kind="unequal", chunk=chunk, col=rng.choice(["w", "z", "dec"])),
+                patch=rng.choice(["centers", "name"]), **kw)
+        elif kind == "id":
+            add(patch="name", fault=dict(kind=rng.choice(["idneg", "idbig", "idwrap", "idedge"]), chunk=chunk, col="pid"), **kw)
+        elif kind == "worker":
+            add(fault=dict(kind="worker", chunk=chunk, col="ra"), patch=rng.choice(["centers", "name"]), **kw)
+        elif kind in ("final", "final_late"):
+            add(fault=dict(kind=kind, chunk=0, col="ra"), patch=rng.choice(["centers", "name"]), **kw)
+        else:
+            raise ValueError(kind)
+
     positions = ["first", "middle", "last"]
     if ctx.quick():
         # every position x mode gets three reader fault kinds (rotating), every kind appears in both modes
@@ -133,6 +168,21 @@ def specs(ctx):
             add(workers=workers, pre="parentfile")
         for workers in (1, 2, 3):
             add(workers=workers, shape=shape(), patch=rng.choice(["centers", "name"]))
+        # ---- creation OVER a pre-existing valid catalog, overwrite=True: fault kind x position x old size x mode
+        k = rng.randrange(len(OVER_FAULTS))
+        for workers in (1, par()):
+            for old in OLD_SIZES:
+                for pos in positions:
+                    over_fault(OVER_FAULTS[k % len(OVER_FAULTS)], pos, workers, old, True)
+                    k += 1
+                over_fault(("final", "final_late")[k % 2], "first", workers, old, True)
+                k += 1
+        for workers in (1, par()):
+            add(workers=workers, pre="catalog_same", overwrite=True, shape=shape(), patch=rng.choice(["centers", "name"]))
+            add(workers=workers, pre="catalog_more", overwrite=True, shape=shape(), patch=rng.choice(["centers", "name"]))
+            add(workers=workers, pre=rng.choice(OLD_SIZES), overwrite=True, empty_centre=True)
+            add(workers=workers, pre=rng.choice(OLD_SIZES), overwrite=False,
+                fault=dict(kind="nan", chunk=2, col=rng.choice(["ra", "w"])))
         return out
     # ---- thorough: the full grid
     for workers in (1, 2, 3):
@@ -179,6 +229,23 @@ def specs(ctx):
         for _ in range(2):
             add(workers=workers, shape=shape(), patch=rng.choice(["centers", "name"]), weights=rng.random() < 0.5,
                 redshifts=rng.random() < 0.5)
+        # ---- creation OVER a pre-existing valid catalog: every fault kind x position x old size, overwrite=True;
+        # the same faults with overwrite=False (the old catalog has to stay) at a random position
+        for old in OLD_SIZES + ["catalog_other"]:
+            for kind in ("value", "value", "unequal", "id", "worker"):
+                for pos in positions:
+                    over_fault(kind, pos, workers, old, True)
+                over_fault(kind, rng.choice(positions), workers, old, False)
+            for kind in ("final", "final_late"):
+                over_fault(kind, "first", workers, old, True)
+                over_fault(kind, "first", workers, old, False)
+            add(workers=workers, pre=old, overwrite=True, shape=shape(), patch=rng.choice(["centers", "name"]))
+            add(workers=workers, pre=old, overwrite=True, empty_centre=True)
+            add(workers=workers, pre=old, overwrite=True, patch="none")
+            add(workers=workers, pre=old, overwrite=True, fault=dict(kind="missing", chunk=0, col=rng.choice(["dec", "w", "z"])))
+            add(workers=workers, pre=old, overwrite=True, source="hdf5", fault=dict(kind="nan", chunk=2, col="ra"))
+        add(workers=workers, pre="catalog_same", overwrite=True, **rnd)
+        add(workers=workers, fault=dict(kind="final_late", chunk=0, col="ra"))
     return out
 
 
@@ -205,8 +272,10 @@ def scenario(spec):
         fault = ("InReader", f["chunk"], "IdRange")
     elif k == "worker":
         fault = ("InWorker", f["chunk"], "Injected")
-    elif k == "final":
+    elif k in ("final", "final_late"):
         fault = ("WriterFinal", 0, "Injected")
+    if spec["pre"] in drv.CATALOG_PRES:
+        return fault, "(old_catalog %s)" % fq.nat(drv.old_npatch(spec)), early
     pre = {"absent": "TAbsent", "noparent": "TNoParent", "parentfile": "TNoParent", "file": "TFile",
            "dir_other": "(TDir true [] false)", "dir_empty": "(TDir false [] false)",
            "catalog_other": "(TDir false [101; 102] true)"}[spec["pre"]]
@@ -393,7 +462,7 @@ def classify_return(spec, res):
             got = {int(p): sorted(tuple(r) for r in v) for p, v in recs.items()}
             if got != exp_part:
                 kind = "ROther"
-    elif spec["pre"] == "catalog_other" and allrows == drv.foreign_records():
+    elif spec["pre"] in drv.CATALOG_PRES and allrows == drv.foreign_records(drv.old_npatch(spec)):
         kind = "RForeign"
     centres_ok = True
     if spec["patch"] == "centers" and kind == "RSame":
@@ -419,12 +488,49 @@ def opens_as_catalog(path):
         return False, type(e).__name__
 
 
-def signatures(spec, code, obs_kind):
+def held_by_path(spec, untouched, opens):
+    """what Catalog(path) holds after the call: (HClosed | HPre | HNew | HOther, description)"""
+    if not opens:
+        return "HClosed", "does not open"
+    if untouched:
+        return "HPre", "opens: the pre-existing catalog, untouched"
+    try:
+        cat = impl.Catalog(spec["cache"], max_workers=1)
+        recs = {}
+        for pid, patch in cat.items():
+            data = patch.load_data()
+            recs[int(pid)] = sorted(tuple(float(rec[nm]).hex() for nm in data.dtype.names) for rec in data)
+    except Exception as e:  # noqa: BLE001
+        return "HOther", "opens, but its data cannot be loaded (%s: %s)" % (type(e).__name__, str(e)[:120])
+    allrows = sorted(r for v in recs.values() for r in v)
+    how = "opens with %d patches %s / %d records" % (len(recs), sorted(recs), len(allrows))
+    try:
+        exp_rows, exp_part = expected_of(spec)
+    except Exception as e:  # noqa: BLE001 - no complete input exists for this case
+        return "HOther", how + " (no complete input to compare with: %s)" % type(e).__name__
+    if allrows == exp_rows and (exp_part is None or recs == exp_part):
+        return "HNew", how + ": exactly the complete input"
+    exp_set, old_set = set(exp_rows), set()
+    if spec["pre"] in drv.CATALOG_PRES:
+        old_set = set(drv.foreign_records(drv.old_npatch(spec)))
+    n_new = sum(1 for r in allrows if r in exp_set)
+    n_old = sum(1 for r in allrows if r in old_set)
+    how += ": %d of the %d input records, %d of the %d records of the old catalog, %d others" % (
+        n_new, len(exp_rows), n_old, len(old_set), len(allrows) - n_new - n_old)
+    return "HOther", how
+
+
+def signatures(spec, code, obs_kind, held="HClosed", held_how=""):
     """one structural signature per violated clause and failing call shape"""
     par = spec["workers"] > 1
     mode = "parallel" if par else "sequential"
     fault, _, early = scenario(spec)
     place = fault[0] if fault else None
+    pos = ""
+    if place in ("InReader", "InWorker"):
+        ch, nch = fault[1], nchunks(spec)
+        pos = "@first" if ch == 0 else "@last" if ch == nch - 1 else "@middle"
+    fshape = "%s%s/%s" % (spec["fault"]["kind"], pos, spec["pre"])
     if spec["fault"]["kind"] != "none":
         shape = spec["fault"]["kind"] + ("/" + spec["source"] if spec["source"] not in ("df", "frame") else "")
     elif spec["empty_centre"]:
@@ -441,7 +547,7 @@ def signatures(spec, code, obs_kind):
             sigs.append(("c09-hang:%s:%s" % (mode, shape), "never returns (killed after the time bound)"))
     if code & 8:
         plain = spec["fault"]["kind"] == "none" and not spec["empty_centre"] and spec["patch"] != "none"
-        if obs_kind == "RForeign" and par and plain and spec["pre"] == "catalog_other" and not spec["overwrite"]:
+        if obs_kind == "RForeign" and par and plain and spec["pre"] in drv.CATALOG_PRES and not spec["overwrite"]:
             sigs.append(("c09-parallel-writer-error-lost-foreign-catalog", "returns the pre-existing catalog of other data"))
         elif spec["empty_centre"] and spec["fault"]["kind"] == "none" and spec["pre"] == "absent" and obs_kind == "RSame":
             sigs.append(("c09-empty-centre-no-error", "returns a catalog (centres shifted onto the wrong patches) instead of raising"))
@@ -456,13 +562,26 @@ def signatures(spec, code, obs_kind):
             sigs.append(("c09-overwrite-deletes-non-catalog", "deletes a directory that is not a catalog cache"))
         else:
             sigs.append(("c09-preexisting-modified:%s:%s" % (shape, mode), "modifies the pre-existing path it has to leave untouched"))
+    over = spec["pre"] in drv.CATALOG_PRES and spec["overwrite"]
     if code & 32:
-        if not par and place in ("InReader", "InWorker") and not early:
+        if over and held == "HOther":
+            sigs.append(("c09-failed-overwrite-leaves-openable-catalog:%s:%s" % (fshape, mode),
+                         "fails while overwriting a valid catalog and leaves a directory that opens as a catalog "
+                         "holding neither the old catalog nor the complete input (%s)" % held_how))
+        elif not par and place in ("InReader", "InWorker") and not early:
             sigs.append(("c09-sequential-error-finalizes-partial-catalog",
                          "raises but leaves a directory that opens as a (partial) catalog"))
         else:
             sigs.append(("c09-failed-creation-openable:%s:%s" % (shape, mode),
                          "fails but leaves a directory that opens as a catalog"))
+    if code & 512 and not code & 32:
+        if obs_kind is not None:
+            sigs.append(("c09-returned-but-path-holds-%s:%s:%s" % ({"HClosed": "nothing-openable", "HOther": "other-data"}.get(held, held),
+                                                                   fshape if spec["fault"]["kind"] != "none" else shape, mode),
+                         "returns a catalog, but Catalog(path) afterwards %s" % held_how))
+        else:
+            sigs.append(("c09-failed-creation-path-holds-%s:%s:%s" % (held, fshape if spec["fault"]["kind"] != "none" else shape, mode),
+                         "fails and Catalog(path) afterwards %s" % held_how))
     return sigs
 
 
@@ -517,9 +636,14 @@ def _run(ctx):
         else:
             ob = "OHang"
         par = spec["workers"] > 1
-        terms.append("c09_case %s %s %s %s %s" % (fq.b(par), scen_term(spec), ob, fq.b(untouched), fq.b(opens)))
+        held, held_how = held_by_path(spec, untouched, opens)
+        terms.append("c09_case_held %s %s %s %s %s %s" % (fq.b(par), scen_term(spec), ob, fq.b(untouched), fq.b(opens), held))
+        ctx.bump("path-afterwards:" + held)
+        if spec["pre"] in drv.CATALOG_PRES and spec["fault"]["kind"] != "none":
+            ctx.bump("fault-over-catalog:%s:%s:%s" % (spec["pre"], "overwrite" if spec["overwrite"] else "keep", "par" if par else "seq"))
         obs = dict(outcome=res["class"], returned=obs_kind, exception=res.get("exc_type"), message=res.get("exc_msg"),
-                   untouched=untouched, opens_afterwards=opens, opens_detail=opens_how, elapsed=round(res.get("elapsed", 0), 2),
+                   untouched=untouched, opens_afterwards=opens, opens_detail=opens_how, path_holds=held, path_holds_detail=held_how,
+                   elapsed=round(res.get("elapsed", 0), 2),
                    before=res["before"] if not untouched else "(same as after)", after=res["after"])
         meta.append((idx, spec, obs, obs_kind))
         fault, pre, early = scenario(spec)
@@ -545,11 +669,14 @@ def _run(ctx):
         replay = dict(case=describe(spec), spec={k: v for k, v in spec.items() if k != "cache"}, model_scenario=scen_term(spec),
                       observed=obs, code=c,
                       rerun="write spec (plus a 'cache' path) to a json file; PYTHONPATH=%s %s %s spec.json out.json" % (REPO_SRC, PY, DRIVER))
-        if c & 2:
-            for sig, what in signatures(spec, c, obs_kind):
+        if c & 2 or c & 512:
+            for sig, what in signatures(spec, c, obs_kind, obs["path_holds"], obs["path_holds_detail"]):
                 ctx.fail(sig, "%s: %s" % (describe(spec), what), replay, case=idx)
-        if c & 1:
+        if c & 1 or c & 256:
             ctx.disagree("Cases_C09", idx, dict(code=c, replay=replay))
+        if c & 1024:
+            ctx.obligation("observation-consistent:case_%03d" % idx, False, "opens=%s untouched=%s held=%s" % (
+                obs["opens_afterwards"], obs["untouched"], obs["path_holds"]))
     ctx.extra["working_tree_follows"] = follows
     ctx.log("model followed by the working tree: %s" % follows)
     for sub in os.listdir(ctx.workdir):
